@@ -115,7 +115,9 @@ Deliver(id) ==           \* any pool message to any endpoint: reorder, loss, dup
 
 DeliverBad(id) ==
   /\ Tick /\ cnt.bad > 0
-  /\ \E m \in Garbage \cup Donor \cup UNION { BadOf(x.m) : x \in pool } : ReadIt(id, m, BIG)
+  /\ \/ \E m \in Garbage \cup Donor : ReadIt(id, m, BIG)
+     \/ \E x \in pool : \E m \in BadOf(x.m) :
+          \E ol \in (IF SmallBufs /\ x.j <= MaxSend THEN {BIG, PLenT(x.j), PLenT(x.j) + 8} ELSE {BIG}) : ReadIt(id, m, ol)
   /\ Accepting(id)
   /\ cnt' = [cnt EXCEPT !.d = @ + 1, !.bad = @ - 1]
   /\ UNCHANGED pool
